@@ -1,57 +1,208 @@
-"""C17 — entity attributes (scalar + list layouts)."""
+"""C17 — entity attributes: scalar, list, dense-vector and sparse-vector layouts, every input form and read form."""
 from __future__ import annotations
 import random
 from ..core import CheckSpec, Outcome, Lean
+
+DIM = 3
+NOVEC = "dense vector attribute read for a set of entities none of which has a vector raises AssertionError"
 
 def gen(rng: random.Random, tier: str):
     n = {"quick": 300, "thorough": 8000}[tier]
     for _ in range(n):
         k = rng.randint(1, 8); ids = rng.sample(range(100), k)
-        use_str = rng.random() < 0.4
-        ents = rng.sample(ids, rng.randint(0, k))
-        yield {"ids": ids, "entities": ents, "str_ids": use_str, "list_lens": [rng.randint(0, 3) for _ in ents]}
+        def subset(full_p=0.25):
+            return rng.sample(ids, k) if rng.random() < full_p else rng.sample(ids, rng.randint(0, k))
+        ents = subset(0.15); vents = subset(0.35); sents = subset(0.25)
+        yield {"ids": ids, "entities": ents, "str_ids": rng.random() < 0.4, "list_lens": [rng.randint(0, 3) for _ in ents],
+               "scalar_form": rng.choice(["arrays", "series", "frame"]),
+               "list_form": rng.choice(["python", "arrow", "sliced", "nulls"]), "list_lead": rng.randint(1, 2),
+               "vec_entities": vents, "vec_form": rng.choice(["numpy", "arrow", "arrow-null"]), "vec_null": rng.randrange(8),
+               "sp_entities": sents, "late": rng.sample([x for x in range(100, 120)], rng.randint(0, 2)) if rng.random() < 0.3 else [],
+               "select": rng.sample(ids, rng.randint(0, k)), "dim_names": rng.random() < 0.5}
+
+def _vec(e):      # the dense vector of entity e (entity 7, 17, … get the zero vector)
+    return [0.0, 0.0, 0.0] if e % 10 == 7 else [e + 0.5, e * 2.0, -float(e)]
+def _sprow(e):    # sparse entries of entity e: {column: value}; entity ≡ 3 (mod 5) has an empty row
+    return {} if e % 5 == 3 else {e % 4: e + 0.25, **({3: 1.0} if e % 4 != 3 and e % 2 == 0 else {})}
+
+def _outcome(f):
+    try: return f()
+    except Exception as ex: return {"error": type(ex).__name__}
 
 def run(case: dict, lean: Lean) -> Outcome:
+    import numpy as np, pandas as pd, pyarrow as pa, scipy.sparse as sps
     from lenskit.data import DatasetBuilder
     conv = (lambda x: f"i{x:03d}") if case["str_ids"] else (lambda x: x)
     ids = [conv(x) for x in case["ids"]]; ents = [conv(x) for x in case["entities"]]
     b = DatasetBuilder(); b.add_entities("item", ids)
-    vals = [f"v{e}" for e in ents]; lists = [[f"t{e}_{j}" for j in range(m)] for e, m in zip(ents, case["list_lens"])]
-    b.add_scalar_attribute("item", "title", ents, vals)
-    if ents: b.add_list_attribute("item", "tags", ents, lists)
-    ds = b.build(); vocab = list(ds.items.ids())
-    nums = [vocab.index(e) for e in ents]
-    real_s = ds.entities("item").attribute("title").arrow().to_pylist()
-    pairs = [[r, v] for r, v in zip(nums, vals)]
-    model_s = lean.call("c17.add_scalar", {"n": len(ids), "pairs": pairs, "variant": "asIs"})
-    want_s = lean.call("c17.add_scalar", {"n": len(ids), "pairs": pairs, "variant": "repaired"})   # = the read-back spec
-    corr = real_s in (model_s, want_s); spec = real_s == want_s     # the code may be in its as-is or its repaired state
-    detail = {"scalar": {"impl": real_s, "model": model_s, "supplied": dict(zip(map(str, ents), vals))}}
+    vals = [f"v{e}" for e in case["entities"]]
+    lists = [[f"t{e}_{j}" for j in range(m)] for e, m in zip(case["entities"], case["list_lens"])]
+    failed = []; keys = []; detail = {}; classes = []
+    # ---- scalar
+    sf = case.get("scalar_form", "arrays")
+    if sf == "series": b.add_scalar_attribute("item", "title", pd.Series(vals, index=pd.Index(ents, dtype=object if case["str_ids"] else "int64"), dtype=object))
+    elif sf == "frame": b.add_scalar_attribute("item", "title", pd.DataFrame({"item_id": pd.Series(ents, dtype=object if case["str_ids"] else "int64"), "title": pd.Series(vals, dtype=object)}))
+    else: b.add_scalar_attribute("item", "title", ents, vals)
+    # ---- list
+    lf = case.get("list_form", "python"); lead = []
+    list_nulls = set()
     if ents:
-        real_l = ds.entities("item").attribute("tags").arrow().to_pylist()
-        model_l = lean.call("c17.add_list", {"n": len(ids), "pairs": [[r, l] for r, l in zip(nums, lists)]})
-        corr = corr and real_l == model_l; spec = spec and real_l == model_l
-        detail["list"] = {"impl": real_l, "model": model_l}
-    classes = []
+        if lf == "arrow": b.add_list_attribute("item", "tags", ents, pa.array(lists, type=pa.list_(pa.string())))
+        elif lf == "sliced":
+            lead_lists = [[f"lead{j}"] for j in range(case.get("list_lead", 1))]; lead = [x for l in lead_lists for x in l]
+            b.add_list_attribute("item", "tags", ents, pa.array(lead_lists + lists, type=pa.list_(pa.string())).slice(len(lead_lists)))
+        elif lf == "nulls":
+            list_nulls = {i for i in range(len(ents)) if i % 3 == 1}
+            b.add_list_attribute("item", "tags", ents, pa.array([None if i in list_nulls else l for i, l in enumerate(lists)], type=pa.list_(pa.string())))
+        else: b.add_list_attribute("item", "tags", ents, lists)
+    # ---- dense vector
+    vents_raw = case.get("vec_entities", []); vents = [conv(x) for x in vents_raw]; vf = case.get("vec_form", "numpy")
+    vnull = {case.get("vec_null", 0) % len(vents)} if (vf == "arrow-null" and vents) else set()
+    names = ["a", "b", "c"] if case.get("dim_names") else None
+    vec_added = False
+    if vents:
+        if vf == "numpy": data = np.array([_vec(e) for e in vents_raw], dtype=np.float64)
+        else: data = pa.array([None if i in vnull else _vec(e) for i, e in enumerate(vents_raw)], type=pa.list_(pa.float64(), DIM))
+        b.add_vector_attribute("item", "emb", vents, data, dim_names=names); vec_added = True
+    # ---- sparse vector
+    sents_raw = case.get("sp_entities", []); sents = [conv(x) for x in sents_raw]
+    if sents:
+        mat = np.zeros((len(sents), 4)); [mat.__setitem__((i, c), v) for i, e in enumerate(sents_raw) for c, v in _sprow(e).items()]
+        b.add_vector_attribute("item", "sp", sents, sps.csr_array(mat), dim_names=["w", "x", "y", "z"] if names else None)
+    # ---- entities added after the attributes
+    late = [conv(x) for x in case.get("late", [])]
+    if late: b.add_entities("item", late); classes.append("entities added after the attributes")
+    ds = b.build(); vocab = list(ds.items.ids()); n = len(vocab)
+    es = ds.entities("item")
+    num = {e: vocab.index(e) for e in vocab}
+    sel = [conv(x) for x in case.get("select", [])]; selnums = [num[e] for e in sel]
+    def views(attr, want, kind):
+        """compare every read form of one attribute with the per-row values `want` (None = missing)"""
+        a = _outcome(lambda: es.attribute(attr))
+        if isinstance(a, dict): failed.append(f"{attr}: attribute lookup raises {a['error']}"); return a
+        got = _outcome(lambda: a.arrow().to_pylist())
+        if kind == "sparse" and isinstance(got, list): got = [None if r is None else sorted((d["index"], d["value"]) for d in r) for r in got]
+        if got != want: failed.append(f"{attr}: arrow() differs")
+        s = _outcome(lambda: es.select(ids=sel).attribute(attr).arrow().to_pylist())
+        if kind == "sparse" and isinstance(s, list): s = [None if r is None else sorted((d["index"], d["value"]) for d in r) for r in s]
+        if s != [want[i] for i in selnums]:
+            failed.append(f"{attr}: select(ids).arrow() differs")
+            if isinstance(s, dict) and s["error"] == "AssertionError" and all(want[i] is None for i in selnums): keys.append(NOVEC)
+        if list(_outcome(lambda: list(es.select(ids=sel).attribute(attr).ids()))) != sel: failed.append(f"{attr}: select(ids).ids() differs")
+        if kind in ("scalar", "list"):
+            p = _outcome(lambda: a.pandas())
+            if isinstance(p, dict): failed.append(f"{attr}: pandas() raises {p['error']}")
+            else:
+                gotp = [None if (x is None or (isinstance(x, float) and x != x)) else (list(x) if kind == "list" else x) for x in p.tolist()]
+                if list(p.index) != vocab or gotp != want:
+                    failed.append(f"{attr}: pandas() differs")
+                    if list(p.index) == [e for e, w in zip(vocab, want) if w is not None] and any(w is None for w in want):
+                        keys.append("scalar / list pandas(missing='null') omits the entities without a value")
+            po = _outcome(lambda: a.pandas(missing="omit"))
+            if isinstance(po, dict): failed.append(f"{attr}: pandas(omit) raises {po['error']}")
+            elif list(po.index) != [e for e, w in zip(vocab, want) if w is not None]: failed.append(f"{attr}: pandas(omit) index differs")
+        if kind == "dense":
+            m = _outcome(lambda: a.numpy())
+            if isinstance(m, dict): failed.append(f"{attr}: numpy() raises {m['error']}")
+            elif [None if np.isnan(r).all() else r.tolist() for r in m] != want: failed.append(f"{attr}: numpy() differs")
+            t = _outcome(lambda: a.torch().numpy())
+            if isinstance(t, dict): failed.append(f"{attr}: torch() raises {t['error']}")
+            elif [None if np.isnan(r).all() else r.tolist() for r in t] != want: failed.append(f"{attr}: torch() differs")
+            p = _outcome(lambda: a.pandas())
+            if isinstance(p, dict):
+                failed.append(f"{attr}: pandas() raises {p['error']}")
+                if any(w is None for w in want): keys.append("vector attribute with missing rows: pandas() raises")
+            elif list(p.index) != vocab or [None if np.isnan(r).all() else r.tolist() for r in p.to_numpy()] != want or (names and list(p.columns) != names):
+                failed.append(f"{attr}: pandas() differs")
+            po = _outcome(lambda: a.pandas(missing="omit"))
+            if isinstance(po, dict): failed.append(f"{attr}: pandas(omit) raises {po['error']}")
+            elif list(po.index) != [e for e, w in zip(vocab, want) if w is not None] or po.to_numpy().tolist() != [w for w in want if w is not None]: failed.append(f"{attr}: pandas(omit) differs")
+            if _outcome(lambda: (a.dim_names, a.vector_size)) != (names, DIM): failed.append(f"{attr}: dimension names / vector size not preserved")
+        if kind == "sparse":
+            m = _outcome(lambda: a.scipy().toarray().tolist())
+            dense = [[dict(r or []).get(c, 0.0) for c in range(4)] for r in want]
+            if m != dense: failed.append(f"{attr}: scipy() differs")
+            t = _outcome(lambda: a.torch().to_dense().numpy().tolist())
+            if t != dense: failed.append(f"{attr}: torch() differs")
+            if _outcome(lambda: (a.dim_names, a._spec.vector_size)) != (["w", "x", "y", "z"] if names else None, 4): failed.append(f"{attr}: dimension names / vector size not preserved")
+        return got
+    pad = lambda rows: rows + [None] * (n - len(rows))
+    # scalar: model (as-is and repaired); the specification is the repaired model = "exactly the supplied value, missing otherwise"
+    nums = [num[e] for e in ents]; pairs = [[r, v] for r, v in zip(nums, vals)]
+    model_s = lean.call("c17.add_scalar", {"n": n, "pairs": pairs, "variant": "asIs"})
+    want_s = lean.call("c17.add_scalar", {"n": n, "pairs": pairs, "variant": "repaired"})
+    nf = len(failed); real_s = views("title", want_s, "scalar")
+    corr = real_s in (model_s, want_s)
+    if len(failed) > nf and nums != sorted(nums) and real_s == model_s: keys.append("add_scalar_attribute:entity_ids_not_ascending")
+    detail["scalar"] = {"impl": real_s, "model_as_is": model_s, "spec": want_s, "supplied": dict(zip(map(str, ents), vals))}
+    if ents:
+        lp = [[r, l] for i, (r, l) in enumerate(zip(nums, lists)) if i not in list_nulls]
+        model_l = lean.call("c17.add_list", {"n": n, "pairs": lp, "lead": lead if not list_nulls else [], "variant": "asIs"})
+        want_l = lean.call("c17.add_list", {"n": n, "pairs": lp, "variant": "repaired"})
+        nf = len(failed); real_l = views("tags", want_l, "list")
+        corr = corr and real_l in (model_l, want_l)
+        if len(failed) > nf and lf == "sliced" and real_l == model_l: keys.append("add_list_attribute: sliced Arrow list array read through its unsliced child buffer")
+        detail["list"] = {"impl": real_l, "model_as_is": model_l, "spec": want_l, "form": lf}
+    if vec_added:
+        vnums = [num[e] for e in vents]
+        vp = [[r, None if i in vnull else [repr(x) for x in _vec(e)]] for i, (r, e) in enumerate(zip(vnums, vents_raw))]
+        m_as = lean.call("c17.add_dense", {"n": n - len(late), "pairs": vp, "variant": "asIs"})
+        m_rep = lean.call("c17.add_dense", {"n": n - len(late), "pairs": vp, "variant": "repaired"})
+        tofl = lambda rows: pad([None if r is None else [float(x) for x in r] for r in rows])
+        want_v = tofl(m_rep["rows"])
+        nf = len(failed); real_v = views("emb", want_v, "dense")
+        if isinstance(real_v, dict) and real_v["error"] == "AssertionError" and all(w is None for w in want_v):
+            keys.append(NOVEC)
+        elif isinstance(real_v, dict):     # attribute lookup failed: the column specification was never registered
+            corr = corr and (not m_as["registered"]) and real_v["error"] == "KeyError"
+            keys.append("dense vector attribute covering every entity: never registered in the schema / stored in arrival order")
+        else:
+            corr = corr and real_v in (tofl(m_as["rows"]), want_v)
+            if len(failed) > nf and real_v != want_v and real_v == tofl(m_as["rows"]): keys.append("dense vector attribute covering every entity: never registered in the schema / stored in arrival order")
+        detail["dense"] = {"impl": real_v, "model_as_is": m_as, "spec": want_v, "form": vf}
+        if m_rep["layout"] == "fixed": classes.append("dense vectors for every entity")
+        else: classes.append("dense vectors for a strict subset / with nulls")
+        if vnums != sorted(vnums): classes.append("dense vectors in non-ascending entity order")
+    if sents:
+        snums = [num[e] for e in sents]
+        sp = [[r, [f"{c}:{v!r}" for c, v in sorted(_sprow(e).items())]] for r, e in zip(snums, sents_raw)]
+        want_sp = pad([None if r is None else sorted((int(x.split(":")[0]), float(x.split(":")[1])) for x in r) for r in lean.call("c17.add_list", {"n": n - len(late), "pairs": sp, "variant": "repaired"})])
+        real_sp = views("sp", want_sp, "sparse")
+        corr = corr and real_sp == want_sp
+        detail["sparse"] = {"impl": real_sp, "spec": want_sp}
+        classes.append("sparse vectors")
+    spec = not failed
+    if failed: detail["failed"] = failed
     if nums != sorted(nums): classes.append("non-ascending entity order")
     if 0 < len(ents) < len(ids): classes.append("partial coverage")
     if len(ents) == len(ids): classes.append("full coverage")
     if case["str_ids"]: classes.append("string ids")
     if any(m == 0 for m in case["list_lens"]): classes.append("empty list value")
-    key = "add_scalar_attribute:entity_ids_not_ascending" if (not spec and nums != sorted(nums)) else None
+    if sf != "arrays": classes.append(f"scalar supplied as {sf}")
+    if ents and lf != "python": classes.append(f"list supplied as {lf}")
+    if sel: classes.append("selected subset read")
+    key = tuple(sorted(set(keys))) if (keys and not spec) else None
     return Outcome(corr, spec, tuple(classes), detail, key)
 
 def shrink(case: dict):
+    for fld in ("vec_entities", "sp_entities", "late", "select"):
+        if case.get(fld):
+            c = dict(case); c[fld] = []; yield c
+            for i in range(len(case[fld])):
+                c = dict(case); c[fld] = case[fld][:i] + case[fld][i+1:]; yield c
     for i in range(len(case["entities"])):
         c = dict(case); c["entities"] = case["entities"][:i] + case["entities"][i+1:]; c["list_lens"] = case["list_lens"][:i] + case["list_lens"][i+1:]
         yield c
+    used = set(case["entities"]) | set(case.get("vec_entities", [])) | set(case.get("sp_entities", [])) | set(case.get("select", []))
     for i in range(len(case["ids"])):
-        if case["ids"][i] not in case["entities"]:
+        if case["ids"][i] not in used:
             c = dict(case); c["ids"] = case["ids"][:i] + case["ids"][i+1:]; yield c
+    if case.get("scalar_form", "arrays") != "arrays": c = dict(case); c["scalar_form"] = "arrays"; yield c
+    if case.get("str_ids"): c = dict(case); c["str_ids"] = False; yield c
 
 SPEC = CheckSpec(
     pid="C17",
-    theorems=["LK.Attr.scalar_readback", "LK.Attr.scalar_readback_partial", "LK.Attr.list_readback", "LK.Attr.fill_sorted"],
-    correspondence_ops=["c17.add_scalar", "c17.add_list"],
-    nontrivial_rule="distinct (ids, entity order, id kind, list lengths) cases reaching ≥1 of: non-ascending entity order, partial/full coverage, string ids, empty list value",
+    theorems=[],     # taken from lean/props.index
+    correspondence_ops=["c17.add_scalar", "c17.add_list", "c17.add_dense"],
+    nontrivial_rule="distinct cases reaching ≥1 of: non-ascending entity order, partial/full coverage, string ids, empty list value, each input form, dense vectors (full / partial / nulls / unordered), sparse vectors, late entities, selected subset",
     budgets={"quick": 300, "thorough": 8000}, gen=gen, run=run, shrink=shrink)
